@@ -225,4 +225,58 @@ CHECKS = {
         "level_note": "Idle closing is replaced by explicit closes of the core and index swamps.",
         "assumptions": ["Save adds/updates core data (package documentation)"],
     },
+    "C18": {
+        "pkg": "life", "run": "^TestC18", "level": "exploration", "overlay": "vsched", "tags": ["verifvsched"],
+        "shards": {"quick": 16, "thorough": 16}, "timeout": {"quick": 1200, "thorough": 3000},
+        "technique": "property-based testing of concurrent summon/close/destroy/cancel programs with rapid-drawn schedule perturbation at instrumented slot sites; instance-identity history oracle",
+        "level_text": "Goroutines summon 1-2 names through hydra.SummonSwamp while returned instances are Close()d or Destroy()ed and contexts are cancelled, under generated "
+                      "pause/sleep/yield plans (a third of the cases use the hand-derived A/B/C slot shape). Every result is logged with instance identity and logical call/return "
+                      "times. Two instances of a name whose certainly-live intervals intersect, or an instance served after its close had returned, is a violation.",
+        "level_note": "Detection is probabilistic (schedules are perturbed, not enumerated); a reported violation is real. Site names carry statement indices; a stale name fails loudly (requireSites).",
+        "assumptions": ["close-after-idle 600 s: nothing but the harness closes instances", "Destroy() is never issued on a handle already Close()d"],
+    },
+    "C16": {
+        "pkg": "life", "run": "^TestC16", "level": "exploration", "overlay": "vsched", "tags": ["verifvsched"],
+        "shards": {"quick": 16, "thorough": 16}, "timeout": {"quick": 1500, "thorough": 3000},
+        "technique": "property-based testing of concurrent writer/lifecycle programs through the gateway handlers (injected and real idle closes, auto-destroy, Destroy, modelled graceful stop and restart) with schedule perturbation; acknowledged-write history oracle after re-open",
+        "level_text": "Bursts of concurrent Set/Increment/Patch writers alternate with Close, auto-destroy, Destroy, real idle eviction (1 s listener) and shutdown; afterwards every "
+                      "swamp is re-opened from disk (or on a fresh engine over a snapshot of the root). Each acknowledged write must be visible unless a later or overlapping "
+                      "write/delete/destroy of the key exists. Open design-level findings are excluded from the main facets and forced in witness facets.",
+        "level_note": "Detection is probabilistic; a violation is real. A harness-issued Swamp.Close() on an instance without active vigils stands for an idle-listener decision; "
+                      "shutdown is MarkShuttingDown -> drain -> StopHydra as server.Stop does it; process exit is a copy of the data root taken when StopHydra returns.",
+        "assumptions": ["ShiftExpired is only issued while the swamp is quiet", "delete durability is not part of the statement and not asserted"],
+    },
+    "C19": {
+        "pkg": "events", "run": "^TestC19", "level": "exploration", "overlay": "vsched", "tags": ["verifvsched"],
+        "shards": {"quick": 8, "thorough": 16}, "timeout": {"quick": 900, "thorough": 3600},
+        "technique": "randomised concurrent gRPC histories (writers + subscribers) against an acknowledged-change-log oracle with commit-order search, with schedule perturbation",
+        "level_text": "Writer and subscriber programs are generated with rapid and executed over real gRPC (bufconn) against the in-process server. Per record, a search for a commit "
+                      "order of the acknowledged changes consistent with program order and real time must reproduce every subscriber's event list (status, payloads, EventTime within "
+                      "[call-1s, return+1s]); attach and detach boundaries are established by private sentinel and fence writes; stream integrity and attachment are always asserted.",
+        "level_note": "Detection is probabilistic, the oracle is sound (an exhausted search or unknown write outcome is a skip). The OldTreasure clause and same-record Delete overlaps are "
+                      "excluded while their findings are open. The thorough tier adds a -race child that only counts reports inside grpc or the gateway event callback.",
+        "assumptions": ["gRPC delivers frames in order on one connection", "an event handed to the transport reaches the client within 20 s"],
+    },
+    "C09": {
+        "pkg": "lin", "run": "^TestC09", "level": "exploration", "overlay": "vsched", "tags": ["verifvsched"],
+        "shards": {"quick": 16, "thorough": 16}, "timeout": {"quick": 1200, "thorough": 3600},
+        "technique": "rapid-generated concurrent client programs + schedule perturbation at instrumented sites + porcupine linearizability check against a sequential per-key model",
+        "level_text": "Recorded request histories ([call, return] on one monotonic clock, arguments, responses, final reads) of 2-6 clients on shared keys are decided linearizable or "
+                      "not by porcupine against a sequential model, in all three write modes (in-memory, write interval 1 s, immediate-write), with independent checks: sum of "
+                      "acknowledged increments equals the final counter, impossible Set statuses, no (nil,nil) response, no recovered panic; a hammer facet runs N x M increments on one key.",
+        "level_note": "Detection is probabilistic (schedules are perturbed, not enumerated), verdicts are sound. Porcupine timeouts and unprovable hangs are counted as skipped, never "
+                      "as violations. Open findings are excluded on shared keys only and forced in witness facets.",
+        "assumptions": ["one numeric family per key", "an anchor record keeps the swamp from auto-destroying", "an overwriting Set may answer UPDATED or NOTHING_CHANGED"],
+    },
+    "C10": {
+        "pkg": "lin", "run": "^TestC10", "level": "exploration", "race": "always",
+        "shards": {"quick": 16, "thorough": 16}, "timeout": {"quick": 1500, "thorough": 3600},
+        "technique": "rapid-generated mixed read/write programs run in -race child processes; race-pair signatures, versioned-read oracle, crash detection",
+        "level_text": "Generated programs (writers Set/Patch/Delete/Shift/bursts, readers Get/GetAll/GetByKeys/GetByIndex with cold index builds/streams with filters/Count) run in "
+                      "child processes built with the race detector. Any child death (fatal error), recovered panic, (nil,nil) response, race pair outside a recorded signature, or a "
+                      "read returning a (value, UpdatedBy) pair that no single Set wrote is a violation; the failing program is the replay.",
+        "level_note": "Race-detector coverage is per executed interleaving. The child is built WITHOUT the vsched overlay (the instrumented atomic loads add happens-before edges that hide "
+                      "reports). One root cause (unlocked treasure setters vs RLock-only getters) is recorded as a signature; pairs outside it are violations.",
+        "assumptions": ["the test binary is built with -race and re-executes itself as child"],
+    },
 }
